@@ -8,6 +8,8 @@ import GrogModel.Lemmas.WalkerTrace
 import GrogModel.Lemmas.WalkerExamples
 import GrogModel.Lemmas.Pool
 import GrogModel.Lemmas.Sys
+import GrogModel.Lemmas.BuildOnce
+import GrogModel.Props.C15
 namespace Grog.C03
 open Grog.Walker
 
@@ -136,5 +138,85 @@ example : Pool.execCount ⟨true, true, false, true, 5⟩ = 1 := by decide
 theorem exec_more_than_once_witness_old :
     Pool.execCountOld ⟨true, true, false, true, 2⟩ = 3 ∧ Pool.execCount ⟨true, true, false, true, 2⟩ = 1 := by
   decide
+
+/-! ### the worker bound on the composition, at-most-once on the build model (review round) -/
+
+/-- **At most `num_workers` at a time, on the composition walker × tasks.** `Sys.ReachW c W`: the composed system where a worker
+    takes a job only if fewer than `W` tasks are on a worker (a pool of `W` goroutines, one job each). In every reachable state,
+    for every graph, schedule, failure pattern, fail-fast on/off and interrupt: the commands running (targets' commands, output
+    checks, dependency re-runs of minimal mode — all are commands of some task) are at most the tasks on a worker, and these are at
+    most `W`. `c.sel.Nodup`: the selection is a set. -/
+theorem commands_le_workers {c : Cfg} {W : Nat} (hsel : c.sel.Nodup) {s : Sys.State} (h : Sys.ReachW c W s) :
+    Sys.commands c s ≤ Sys.onWorkers c s ∧ Sys.onWorkers c s ≤ W :=
+  ⟨Sys.commands_le_onWorkers c s, Sys.onWorkers_le hsel h⟩
+
+/-- …and the count misses nothing: a task exists only for a selected node; every run with `W` workers is a run of the unbounded
+    composition, so `command_only_after_all_dependencies`, `C05.fail_fast_no_command_start` … hold for it. -/
+theorem bounded_runs_are_runs {c : Cfg} {W : Nat} (ok : CfgOK c) {s : Sys.State} (h : Sys.ReachW c W s) :
+    Sys.Reach c s ∧ ∀ n, s.task n ≠ .none → n ∈ c.sel :=
+  ⟨Sys.reachW_reach h, Sys.task_only_selected ok (Sys.reachW_reach h)⟩
+
+/-- the diamond with ONE worker: 0 is done, the callbacks of 1 and 2 both run and both submitted their task, the worker took the
+    task of 1 and runs its command. The task of 2 cannot be taken (the bound bites: the unbounded composition would accept the
+    `take`), one command runs. -/
+example : ∃ s, Sys.ReachW (Ex.diamond false) 1 s ∧ s.task 1 = .busy true ∧ s.task 2 = .queued ∧
+    Sys.commands (Ex.diamond false) s = 1 ∧ Sys.stepW (Ex.diamond false) 1 s (.take 2) = none ∧
+    (Sys.step (Ex.diamond false) s (.take 2)).isSome = true := by
+  have h0 : Sys.ReachW (Ex.diamond false) 1 (Sys.init _) := Sys.ReachW.init
+  have h1 := Sys.ReachW.step h0 (e := .walker (.wake 0)) (s' := _) rfl
+  have h2 := Sys.ReachW.step h1 (e := .cbReturn 0 .ok) (s' := _) rfl
+  have h3 := Sys.ReachW.step h2 (e := .walker (.complete 0)) (s' := _) rfl
+  have h4 := Sys.ReachW.step h3 (e := .walker (.wake 1)) (s' := _) rfl
+  have h5 := Sys.ReachW.step h4 (e := .walker (.wake 2)) (s' := _) rfl
+  have h6 := Sys.ReachW.step h5 (e := .submit 1) (s' := _) rfl
+  have h7 := Sys.ReachW.step h6 (e := .submit 2) (s' := _) rfl
+  have h8 := Sys.ReachW.step h7 (e := .take 1) (s' := _) rfl
+  have h9 := Sys.ReachW.step h8 (e := .cmdStart 1) (s' := _) rfl
+  exact ⟨_, h9, by decide, by decide, by decide, by decide, by decide⟩
+
+/-- the diamond, all four callbacks ran (1 and 2 concurrently): node 3 started and all of 0, 1, 2 are its transitive dependencies -/
+example : Reach (Ex.diamond false) (Ex.after (Ex.diamond false) Ex.diamondOkRun) ∧
+    ((Ex.after (Ex.diamond false) Ex.diamondOkRun).phase 3).started = true ∧
+    Anc (Ex.diamond false) 0 3 ∧ Anc (Ex.diamond false) 1 3 ∧ Anc (Ex.diamond false) 2 3 ∧
+    Ex.diamondOkRun.count (.wake 3) = 1 :=
+  ⟨Ex.reach_after (by decide), by decide, Ex.diamond_anc.mpr (by decide), Ex.diamond_anc.mpr (by decide),
+   Ex.diamond_anc.mpr (by decide), by decide⟩
+
+section build
+open Grog.Exec Grog.Build
+variable {κ : Type} [DecidableEq κ]
+
+/-- **Each target at most once, on the build model** (`Build.build`, `load_outputs=all`): over a duplicate-free order (the
+    topological order of the selected closure) with labels that name their definitions, every label occurs at most once in the
+    log of executed commands of one invocation, and only labels of the order occur. Any cache content, any taints, any
+    workspace, any flags, cache faults included (in mode `all` a lost blob makes the target itself run — once). -/
+theorem build_executes_each_target_at_most_once (P : Params κ) (cfg : Exec.Cfg) (w : World κ) (order : List Lbl)
+    (hm : cfg.minimal = false) (hlab : ∀ l t, w.defs l = some t → t.label = l) (ho : order.Nodup) :
+    (∀ l, (build P cfg w order).log.count l ≤ 1) ∧ ∀ l ∈ (build P cfg w order).log, l ∈ order := by
+  obtain ⟨h1, h2⟩ := build_log_once P cfg w order hm hlab ho
+  exact ⟨fun l => List.nodup_iff_count.mp h1 l, h2⟩
+
+/-- **…and in `load_outputs=minimal`** (where a dependant's task may re-run dependencies, `loadDepList`): for the repaired code
+    (`rerunOnce`, e34dacb; `loadFault`; `minValidate`), a cache whose result records have their blobs (`CasOK`: no cache fault —
+    the clause's own "absent cache faults") and a well-formed build, the log of executed commands is the log of the `all` build of
+    the same world (C15 lock-step simulation), hence each label at most once and only labels of the order. -/
+theorem build_executes_each_target_at_most_once_minimal (P : Params κ) (hG : Good P) (hfx : P.fx.minValidate = true)
+    (hro : P.fx.rerunOnce = true) (hlf : P.fx.loadFault = true) (outP : Path → Prop) (cfg : Exec.Cfg) (w : World κ)
+    (order : List Lbl) (hcas : CasOK w.cache) (hB : BuildOK outP w.defs order) :
+    (∀ l, (build P (C15.withMode cfg true) w order).log.count l ≤ 1) ∧
+      ∀ l ∈ (build P (C15.withMode cfg true) w order).log, l ∈ order := by
+  have h := C15.same_verdict_and_execs_holds P hG hfx hro hlf outP w [] cfg order hcas trivial hB
+  have hlog : (build P (C15.withMode cfg false) w order).log = (build P (C15.withMode cfg true) w order).log :=
+    List.reverse_inj.mp h.2.1
+  rw [← hlog]
+  exact build_executes_each_target_at_most_once P (C15.withMode cfg false) w order rfl hB.wf.label hB.wf.nodup
+
+/-- the hypotheses of the minimal-mode statement are satisfiable (the one-target build of `C15.exBuildOK`) -/
+example : BuildOK (fun p => p = [9]) C15.exDefs [[1]] := C15.exBuildOK
+
+/- Regression witness on the build model for the code before e34dacb (`rerunOnce = false`): `C15.nocache_rerun_witness` — a
+   dependant's `loadDepList` logs the label of an already built no-cache dependency a second time. -/
+
+end build
 
 end Grog.C03
